@@ -484,6 +484,14 @@ def enumerate_live():
     return _enum_cache['r']
 
 
+# half of the probes of the large families run below an outer frame (see statement forms)
+OUTER = ['', ' outer=1', ' outer=2']
+
+
+def outer_rot(i):
+    return OUTER[(0, 1, 0, 2)[i % 4]]
+
+
 def probe(pid, mode, marker, code, desc, leak=0):
     return 'sb_probe id=%d mode=%s marker=%d leak=%d code=%s %s' % (pid, mode, marker, leak, hx(code), desc)
 
@@ -595,16 +603,19 @@ def _generate(seed, tier):
         k = 0
         for mode in (modes or ('filter', 'event', 'inbox', 'console')):
             for marker in (1, 0):
-                k += 1
-                code = fresh(tmpl) % (M if marker else fresh(plain))
-                lines.append(probe(k, mode, marker, code, 'kind=form form=%s' % form))
+                # outer=1: the entry point is called while a non-sandboxed ScriptFrame lies on the thread's frame stack; outer=2: from
+                # inside a native function run through Function::Invoke (how the built-in check functions emit check result events)
+                for outer in (0, 1, 2):
+                    k += 1
+                    code = fresh(tmpl) % (M if marker else fresh(plain))
+                    lines.append(probe(k, mode, marker, code, 'kind=form form=%s%s' % (form, OUTER[outer])))
         add(lines, 'statement-form', form=form)
     # 1b. WRITERS x POSITIONS x LEFT-HAND SIDES
     ps = writer_position_probes(fns, rnd, tier)
     for j in range(0, len(ps), 40):
         lines = []
         for i, (mode, code, desc) in enumerate(ps[j:j + 40]):
-            lines.append(probe(i + 1, mode, 0, fresh(code), desc))
+            lines.append(probe(i + 1, mode, 0, fresh(code), desc + outer_rot(i + j // 40)))
         add(lines, 'writer-position')
     # 2. every live function / prototype method
     skipped = []
@@ -614,7 +625,7 @@ def _generate(seed, tier):
             skipped.append(fn['name'])
             continue
         rnd.shuffle(ps)
-        lines = [probe(i + 1, mode, marker, code, desc) for i, (mode, marker, code, desc) in enumerate(ps)]
+        lines = [probe(i + 1, mode, marker, code, desc + outer_rot(i)) for i, (mode, marker, code, desc) in enumerate(ps)]
         add(lines, 'function-call', fn=fn['name'], safe=fn['safe'])
     # 2c. PURITY: every function registered side-effect-free x every argument position (and `this`) x every live shared
     #     container / object, under deep snapshots (class changed:call:<name> on any difference)
@@ -625,7 +636,7 @@ def _generate(seed, tier):
         if not ps:
             continue
         for j in range(0, len(ps), 40):
-            lines = [probe(i + 1, mode, 0, code, desc) for i, (mode, code, desc) in enumerate(ps[j:j + 40])]
+            lines = [probe(i + 1, mode, 0, code, desc + outer_rot(i + j // 40)) for i, (mode, code, desc) in enumerate(ps[j:j + 40])]
             add(lines, 'purity', fn=fn['name'], safe=1)
     # 2d. HIDDEN READS THROUGH NATIVES: every side-effect-free function x every position x {owner of a no_user_view field,
     #     reference to the field, containers of them}; the value is handed back (console) or compared with the secret (filters)
@@ -761,7 +772,7 @@ def _generate(seed, tier):
             for mode in modes:
                 uid[0] += 1
                 ps.append((mode, 0, '[ "SbCb%d", 1 ].%s(%s)\n0' % (uid[0], key, cbx), desc))
-        lines = [probe(i + 1, mode, marker, code, desc) for i, (mode, marker, code, desc) in enumerate(ps)]
+        lines = [probe(i + 1, mode, marker, code, desc + outer_rot(i)) for i, (mode, marker, code, desc) in enumerate(ps)]
         add(lines, 'unsafe-callback', cb=cbf['name'])
     # 5. hidden globals (F-C19-b), each in a case of its own
     for mode, code, leak in (('console', 'TicketSalt', 0), ('console', 'globals.TicketSalt', 0), ('filter', 'TicketSalt == "sbSALTval"', 1),
